@@ -20,6 +20,13 @@
 (*                     x scalar/vector/diag/dense/sparse) generated from   *)
 (*                     one unit-triangular integer factor and one dyadic   *)
 (*                     diagonal have the same <<mean, prec, logdet, rank>> *)
+(*   ScalingLaw        scaling the covariance by a = 4^e (cov' = a cov,     *)
+(*                     prec' = prec/a, sqrtcov' = 2^e sqrtcov, sqrtprec' =  *)
+(*                     sqrtprec/2^e) and the deviation by 2^e gives, for    *)
+(*                     EVERY input form, logpdf' = logpdf - dim e log 2 and *)
+(*                     gradient' = gradient / 2^e  (checked exactly for     *)
+(*                     e = -1, 1; the emitted cases carry the expected      *)
+(*                     values for e = -30, 30 - magnitudes 1e-18 .. 1e18)   *)
 (*   QuadIdentity      logd(x+h) - logd(x-h) = 2 h.grad(x)  (quadratic     *)
 (*                     families: spec gradient consistent with spec        *)
 (*                     density)                                            *)
@@ -28,6 +35,12 @@
 (*                     log-density -inf exactly there                      *)
 (*   OutcomeTable      GradOutcome(family, conditional, geometry, FD) is   *)
 (*                     total and encodes "refused where not available"     *)
+(*   ExpansionChain    likelihood through a model whose domain geometry is *)
+(*                     a linear EXPANSION u = E p (step / KL expansions:   *)
+(*                     subclasses of an identity-like geometry class that  *)
+(*                     offer no derivative): the derivative with respect   *)
+(*                     to the parameters is E^T gradient_fun - refused or  *)
+(*                     that vector, never gradient_fun itself              *)
 (* and emits one @@CASE line per configuration with the exact expected     *)
 (* values for the conformance replay.                                      *)
 (*                                                                         *)
@@ -175,6 +188,43 @@ GaussLogpdf(mean, cn, x) ==
     IN SLAdd(SLScale(Q(-1, 2), SLAdd(SLScale(R(cn[3]), SLLog2Pi), cn[2])), SLConst(RMul(Q(-1, 2), Quad(cn[1], dev))))
 GaussKernel(mean, cn, x) == SLConst(RMul(Q(-1, 2), Quad(cn[1], VSub(x, mean))))
 GaussGrad(mean, cn, x) == VScale(R(-1), MV(cn[1], VSub(x, mean)))
+
+\* ---------------------------------------------------------------------------
+\* Gaussian: scaling law.  The documented density N(mean, cov) has no preferred magnitude: with a = 4^e,
+\*     cov' = a cov,  prec' = prec / a,  sqrtcov' = 2^e sqrtcov,  sqrtprec' = sqrtprec / 2^e,  x' = mean + 2^e (x - mean)
+\* denote, for every input form and shape, the distribution with
+\*     logpdf'(x') = logpdf(x) - (dim / 2) log a = logpdf(x) - dim e log 2,        gradient'(x') = gradient(x) / 2^e.
+\* ScalingLaw checks this identity with exact arithmetic for the exponents of ScaleExpsChecked on every input form of every
+\* configuration (Canon of the scaled input, density and gradient at the scaled point); the emitted cases carry the expected
+\* values of the law for the exponents of ScaleExpsEmitted (a = 4^-30 ~ 8.7e-19 and 4^30 ~ 1.2e18: off-diagonal entries far
+\* below / diagonal entries far above any absolute tolerance).  Powers of two keep the real inputs exact in binary floating
+\* point, so the replay compares at the same tolerance as for the unscaled instance.
+ScaleExpsChecked == {-1, 1}
+ScaleExpsEmitted == <<-30, 30>>
+FormScale(form, e) ==          \* factor of the input matrix of a form when the covariance is scaled by 4^e
+    CASE form = "cov" -> Pow2(2 * e) [] form = "prec" -> Pow2(-(2 * e)) [] form = "sqrtcov" -> Pow2(e) [] form = "sqrtprec" -> Pow2(-e)
+FormScalePow2(form, e) ==      \* the same factor as an exponent of two (what the cases carry: 2^60 is not a TLC integer)
+    CASE form = "cov" -> 2 * e [] form = "prec" -> -(2 * e) [] form = "sqrtcov" -> e [] form = "sqrtprec" -> -e
+ScaledPoint(mean, x, e) == VAdd(mean, VScale(Pow2(e), VSub(x, mean)))
+ScaledLogpdf(lp, d, e)  == SLSub(lp, SLAtom("log2", R(d * e)))
+ScaledGrad(g, e)        == VScale(Pow2(-e), g)
+ScalingLaw ==
+    c.fam = "Gaussian" =>
+      LET d == c.dim
+          m == Pat(LLoc, d, c.a)
+          W == SqrtPrecOf(d, c.b, Pat(LLam, d, c.g))
+          cn == Canon("sqrtprec", W)
+          x == VAdd(m, Pat(LOff, d, c.x))
+          lp == GaussLogpdf(m, cn, x)
+          gr == GaussGrad(m, cn, x)
+      IN \A e \in ScaleExpsChecked :
+           LET xs == ScaledPoint(m, x, e)
+           IN \A fs \in GaussInputs(d, W) :
+                LET Ms == MScale(FormScale(fs[1], e), Expand(fs[2], InputData(fs[2], FormMatrix(fs[1], W)), d))
+                    cs == Canon(fs[1], Ms)
+                IN /\ cs[1] = MScale(Pow2(-(2 * e)), cn[1]) /\ cs[3] = cn[3]
+                   /\ GaussLogpdf(m, cs, xs) = ScaledLogpdf(lp, d, e)
+                   /\ GaussGrad(m, cs, xs) = ScaledGrad(gr, e)
 
 \* ---------------------------------------------------------------------------
 \* per-family documented log-density, support, gradient, cdf
@@ -431,6 +481,13 @@ GaussCase(k) ==
             Fin(GaussLogpdf(m, cn, x)), FinGrad(GaussGrad(m, cn, x)), TRUE,
             IF IsDiagM(W) THEN [form |-> "phi", z |-> F([i \in 1..d |-> RMul(W[i][i], RSub(x[i], m[i]))])] ELSE NoCdf)
        @@ [prec |-> cn[1], logdet |-> cn[2], rank |-> cn[3],
+           \* the same instance at other magnitudes (ScalingLaw): exponent e of a = 4^e, the power of two by which the input of
+           \* each form, the deviation x - mean and the gradient are multiplied, and the expected log-density
+           scaled |-> [i \in 1..Len(ScaleExpsEmitted) |->
+                         LET e == ScaleExpsEmitted[i]
+                         IN [e |-> e, dev_pow2 |-> e, grad_pow2 |-> -e,
+                             form_pow2 |-> [f \in {Forms[j] : j \in 1..4} |-> FormScalePow2(f, e)],
+                             logpdf |-> Fin(ScaledLogpdf(GaussLogpdf(m, cn, x), d, e))]],
            inputs |-> [i \in 1..Cardinality(ins) |->
                          [form |-> inseq[i][1], shape |-> inseq[i][2],
                           data |-> InputData(inseq[i][2], FormMatrix(inseq[i][1], W))]]]
@@ -530,6 +587,43 @@ PriorParts(k, x) ==      \* g = 1: Gaussian(mean, cov = 4);  2: GMRF(mean, 1, ze
                            grad |-> GmrfGrad(P, One, m, x)]
          [] OTHER -> [kind |-> "none", mean |-> m, logpdf |-> SLZero, grad |-> VZero(n)]
 
+\* ---- models on an expansion geometry ------------------------------------------------------------------------------
+\* Domain geometries StepExpansion / KLExpansion ... map parameters p to function values u = E p (E linear, not the identity),
+\* are SUBCLASSES of the identity-like class Continuous1D and offer no `gradient`.  A model given on function values, Ff(u),
+\* then has the log-likelihood p |-> loglik(Ff(E p)) whose derivative with respect to p is
+\*       ChainGrad(E, gradient_fun) = E^T gradient_fun(E p),
+\* which the library cannot form: the gradient of a likelihood / posterior / multiple-likelihood posterior through such a model
+\* is REFUSED, or it is that vector (ModelDomOutcome).  The replay composes the spec's forward map with a left inverse R of the
+\* geometry's own E (Ff = F . R, R E = I), so that the object's log-density at p is the spec's LogLik at x = p and its
+\* true derivative is the spec's GradLik; with the rational step expansion below TLC checks this algebra exactly.
+ExpGeoms == <<"step", "kl_full", "kl_trunc">>    \* realised by StepExpansion (2 nodes per step), KLExpansion (all modes / truncated)
+DomGeoms == <<"identity", "withgradient", "expansion">>
+ModelDomOutcome(dg) == IF dg = "expansion" THEN "RefusedOrChain" ELSE "Value"
+StepE(n) == F([a \in 1..(2 * n) |-> [b \in 1..n |-> IF (a + 1) \div 2 = b THEN One ELSE Zero]])   \* node a lies in step (a+1) div 2
+StepR(n) == F([b \in 1..n |-> [a \in 1..(2 * n) |-> IF (a + 1) \div 2 = b THEN Half ELSE Zero]])  \* mean over the step: R E = I
+ChainGrad(E, gfun) == MV(MT(E), gfun)
+\* gradient of u |-> loglik(F(R u)) with respect to the FUNCTION values u
+GradLikFun(mk, A, B, lam, y, Rm, u) == MV(MT(Rm), GradLik(mk, A, B, lam, y, MV(Rm, u)))
+ExpansionChain ==
+    (c.fam \in {"Lik", "LikLognormal"} /\ MKinds[c.o] # "geomgrad") =>
+      LET n == c.dim  A == MR(LA(n, c.a))  B == MR(LB(LA(n, c.a)))  mk == MKinds[c.o]
+          m == Len(A)
+          lam == Pat(LLam, m, c.b)
+          y == IF c.fam = "LikLognormal" THEN VZero(m) ELSE Pat(LInt, m, IF m = 1 THEN 2 ELSE Len(LInt) + 1)
+          x == Pat(LInt, n, c.x)
+          E == StepE(n)  Rm == StepR(n)
+          u == MV(E, x)
+          gfun == GradLikFun(mk, A, B, lam, y, Rm, u)
+          gpar == GradLik(mk, A, B, lam, y, x)
+          hh == F([i \in 1..n |-> Q(i, 2)])                              \* a fixed displacement
+          LLf(p) == LogLik(mk, A, B, lam, y, MV(Rm, MV(E, p)))          \* the object's own log-density at the parameters p
+      IN /\ MM(Rm, E) = MId(n)
+         /\ LLf(x) = LogLik(mk, A, B, lam, y, x)
+         /\ ChainGrad(E, gfun) = gpar                                   \* the derivative with respect to the parameters
+         /\ (gpar # VZero(n) => MV(Rm, gfun) # gpar)                    \* gradient_fun pushed through fun2par is NOT that derivative
+         /\ (mk \in {"matrix", "funadj"} =>                              \* and it is the derivative of the composed density, exactly
+               SLSub(LLf(VAdd(x, hh)), LLf(VSub(x, hh))) = SLConst(RMul(R(2), Dot(hh, ChainGrad(E, gfun)))))
+
 LikCase(k) ==
     LET n == k.dim  A == MR(LA(n, k.a))  B == MR(LB(LA(n, k.a)))  mk == MKinds[k.o]
         m == Len(A)
@@ -547,6 +641,10 @@ LikCase(k) ==
         loglik |-> ll, gradlik |-> gl,
         logpost |-> SLAdd(ll, pr.logpdf), gradpost |-> VAdd(gl, pr.grad),
         y2 |-> y2, loglik2 |-> LogLik("jacobian", A, B, lam2, y2, x), gradlik2 |-> GradLik("jacobian", A, B, lam2, y2, x),
+        \* the same likelihood / posterior through a model on an expansion geometry (Ff = F . R): log-densities as above; gradient
+        \* refused or the vectors above ( = ChainGrad(E, gradient_fun) )
+        expansion |-> [geoms |-> (IF mk = "geomgrad" THEN <<>> ELSE ExpGeoms), outcome |-> ModelDomOutcome("expansion"),
+                       stepE |-> StepE(n), stepR |-> StepR(n)],
         cfg |-> k]
 
 FamConfigs(fam) ==
@@ -650,14 +748,15 @@ Families_  == {"Normal", "Gaussian", "GMRF", "LMRF", "CMRF", "Laplace", "Smoothe
 NoGrad     == {"Normal", "Laplace", "Gamma", "LMRF"}                \* no analytic gradient is implemented / documented
 Guarded    == {"Gaussian", "GMRF", "CMRF", "Cauchy", "Beta", "InverseGamma", "Lognormal"}   \* identity-geometry guard
 ViaModel   == {"Gaussian", "Lognormal"}                              \* conditional mean = forward model: chain rule
-GeomKinds  == {"identity", "mapped", "withgradient"}
+GeomKinds  == {"identity", "mapped", "withgradient", "expansion"}   \* expansion: subclass of an identity-like geometry class
+                                                                      \* with a non-identity par2fun and no `gradient`
 Outcomes   == {"Value", "Refused", "ValueFD"}
 
 GradOutcome(fam, cond, geom, fd) ==
     IF cond THEN (IF fam \in ViaModel /\ ~fd THEN "Value" ELSE "Refused")   \* only through a model's gradient
     ELSE IF fd THEN "ValueFD"
     ELSE IF fam \in NoGrad THEN "Refused"
-    ELSE IF geom = "mapped" /\ fam \in Guarded THEN "Refused"
+    ELSE IF geom \in {"mapped", "expansion"} /\ fam \in Guarded THEN "Refused"
     ELSE IF geom = "withgradient" /\ fam \in Guarded \ {"Gaussian"} THEN "Refused"
     ELSE "Value"
 
@@ -674,14 +773,15 @@ OutcomeTable ==
 \* the rows are enumerated by index arithmetic (a recursion of depth 168 occasionally exhausted the Java stack)
 FamSeq  == <<"Normal", "Gaussian", "GMRF", "LMRF", "CMRF", "Laplace", "SmoothedLaplace", "Cauchy", "Gamma",
              "InverseGamma", "Beta", "Lognormal", "Uniform", "ModifiedHalfNormal">>
-GeomSeq == <<"identity", "mapped", "withgradient">>
-ASSUME {FamSeq[i] : i \in 1..Len(FamSeq)} = Families_ /\ {GeomSeq[i] : i \in 1..3} = GeomKinds
+GeomSeq == <<"identity", "mapped", "withgradient", "expansion">>
+NGeom   == Len(GeomSeq)
+ASSUME {FamSeq[i] : i \in 1..Len(FamSeq)} = Families_ /\ {GeomSeq[i] : i \in 1..NGeom} = GeomKinds
 TableCase ==
     [kind |-> "table",
-     rows |-> [i \in 1..(12 * Len(FamSeq)) |->
-                 LET fam == FamSeq[((i - 1) \div 12) + 1]
-                     cond == (((i - 1) \div 6) % 2) = 1
-                     geom == GeomSeq[(((i - 1) \div 2) % 3) + 1]
+     rows |-> [i \in 1..(4 * NGeom * Len(FamSeq)) |->
+                 LET fam == FamSeq[((i - 1) \div (4 * NGeom)) + 1]
+                     cond == (((i - 1) \div (2 * NGeom)) % 2) = 1
+                     geom == GeomSeq[(((i - 1) \div 2) % NGeom) + 1]
                      fd == ((i - 1) % 2) = 1
                  IN [fam |-> fam, cond |-> cond, geom |-> geom, fd |-> fd, outcome |-> GradOutcome(fam, cond, geom, fd)]]]
 
